@@ -1,5 +1,7 @@
 import HappyModel.Proto
 import HappyModel.C18.Spec
+import HappyModel.C18.StoreSpec
+import HappyModel.C18.KClock
 /-! Line-protocol driver for C18 (see `hv/props/c18.py` for the other side). -/
 namespace HappyModel.C18.Driver
 open HappyModel.Proto HappyModel.C18
@@ -20,11 +22,29 @@ def recLine (r : Rec) (n : Nat) : String :=
 def hbLine (log : List Rec) (b : Rec) : String :=
   s!"hb {b.id} " ++ String.join (log.map fun a => showBool (vcHappenedBefore a.V b.V))
 
+/-- `mem i ids…`: the node ids node i's clock was constructed with (default: all n nodes) -/
+def parseMem (n : Nat) (body : List String) : List (List Nat) :=
+  (List.range n).map fun i =>
+    match body.find? (fun l => match toks l with | "mem" :: t :: _ => natD t == i | _ => false) with
+    | some l => nats ((toks l).drop 2)
+    | none => List.range n
+
+def kvecOut (v : KVec) (n : Nat) : String := showNats ((List.range n).map v.get)
+
+/-- the vector clocks are the dict clocks of `KClock.lean` (key sets as constructed / grown);
+    Lamport and HLC come from `run` -/
 def runClocks (n : Nat) (body : List String) : List String :=
   let evs := body.filterMap (fun l => parseEv (toks l))
+  let mem := parseMem n body
   let s := run {} evs
+  let k := krun (KSt.init fun i => mem.getD i []) evs
   let log := s.log.reverse
-  log.map (recLine · n) ++ log.map (hbLine log)
+  let klog := k.log.reverse
+  (log.zip klog).map (fun (r, kv) => s!"e {r.id} {r.node} {r.L} {kvecOut kv n} {r.H.p} {r.H.l}") ++
+  (log.zip klog).map (fun (b, kb) =>
+    s!"hb {b.id} " ++ String.join (klog.map fun ka => showBool (ka.happenedBefore kb))) ++
+  (log.zip klog).map (fun (b, kb) =>
+    s!"cc {b.id} " ++ String.join (klog.map fun ka => showBool (ka.concurrent kb)))
 
 def parseObs (n : Nat) (ts : List String) : Option (Nat × Obs) :=
   match ts with
@@ -32,15 +52,29 @@ def parseObs (n : Nat) (ts : List String) : Option (Nat × Obs) :=
     if rest.length == n + 2 then
       let v := nats (rest.take n)
       let h := nats (rest.drop n)
-      some (natD id, ⟨natD l, v, ⟨h.getD 0 0, h.getD 1 0⟩⟩)
+      some (natD id, ⟨natD l, v, ⟨h.getD 0 0, h.getD 1 0⟩, [], []⟩)
     else none
+  | _ => none
+
+def bitsOf (s : String) : List Bool := s.toList.map (· == '1')
+
+/-- `hbo b bits` / `cco b bits`: the implementation's own comparison verdicts for event `b` -/
+def parseBits (tag : String) (ts : List String) : Option (Nat × List Bool) :=
+  match ts with
+  | [t, id, bits] => if t == tag then some (natD id, bitsOf bits) else none
+  | [t, id] => if t == tag then some (natD id, []) else none
   | _ => none
 
 def judgeClocksBlock (n : Nat) (body : List String) : List String :=
   let evs := body.filterMap (fun l => parseEv (toks l))
   let obsL := body.filterMap (fun l => parseObs n (toks l))
+  let hbL := body.filterMap (fun l => parseBits "hbo" (toks l))
+  let ccL := body.filterMap (fun l => parseBits "cco" (toks l))
   let s := run {} evs
-  let obs : Nat → Option Obs := fun i => (obsL.find? (·.1 == i)).map (·.2)
+  let obs : Nat → Option Obs := fun i =>
+    (obsL.find? (·.1 == i)).map fun o =>
+      { o.2 with hbIn := ((hbL.find? (·.1 == i)).map (·.2)).getD [],
+                 ccIn := ((ccL.find? (·.1 == i)).map (·.2)).getD [] }
   match judgeClocks s.log.reverse obs with
   | none => ["ok"]
   | some sig => [s!"viol {sig}"]
@@ -129,12 +163,112 @@ def judgeCrdtBlock (body : List String) : List String :=
       | none => go sp' (i + 1) rest
   if ps.length * 2 != body.length then ["viol crdt/malformed-judge-input"] else go {} 0 ps
 
+/-! ### CRDTStore replicas -/
+
+def parseKind (k : String) : Kind :=
+  if k == "g" then .g else if k == "pn" then .pn else if k == "or" then .os else .lww
+
+def parseStep (ts : List String) : Option SStep :=
+  match ts with
+  | ["w", s, key, op, v] =>
+    let a := if v == "None" then 1 else natD v
+    if op == "inc" then some (.w (natD s) (natD key) (.inc a))
+    else if op == "dec" then some (.w (natD s) (natD key) (.dec a))
+    else if op == "add" then some (.w (natD s) (natD key) (.add a))
+    else if op == "rem" then some (.w (natD s) (natD key) (.rem a))
+    else none
+  | ["lset", s, key, v, p, l, nd] =>
+    some (.w (natD s) (natD key) (.lset (natD v) (natD p) (natD l) (natD nd)))
+  | ["tick", s, j] => some (.tick (natD s) (natD j))
+  | ["dl", m] => some (.dl (natD m))
+  | _ => none
+
+def parsePeers (n : Nat) (body : List String) : List (List Nat) :=
+  (List.range n).map fun s =>
+    match body.find? (fun l => match toks l with | "peers" :: t :: _ => natD t == s | _ => false) with
+    | some l => nats ((toks l).drop 2)
+    | none => []
+
+def msgLine (id : Nat) (m : Msg) : String :=
+  let ks := sortNat (m.keys.map (·.1))
+  let base := s!"m {id} {if m.push then "push" else "resp"} {m.src} {m.dst}"
+  if ks.isEmpty then base else s!"{base} {showNats ks}"
+
+def keyLine (kind : Kind) (n st key nid : Nat) (x : Rep) : String :=
+  let head := s!"s {st} {key} nid {nid}"
+  match kind with
+  | .g => s!"{head} v {x.pn.value} P {vecOut x.pn.p n} X"
+  | .pn => s!"{head} v {x.pn.value} P {vecOut x.pn.p n} N {vecOut x.pn.n n} X"
+  | .lww => s!"{head} lww {lwwOut x.lww}"
+  | .os =>
+    let live := sortNat (x.os.ents.map fun e => e.1 * 1000000000 + tagKey e.2)
+    let dead := sortNat (x.os.tomb.map tagKey)
+    s!"{head} q {x.os.seq} E {showNats (elemsOf x.os)} T {showNats live} D {showNats dead}"
+
+def runStore (v : Variant) (kind : Kind) (n : Nat) (body : List String) : List String :=
+  let steps := body.filterMap (fun l => parseStep (toks l))
+  let rec go (st : SSt) (i : Nat) : List SStep → List String
+    | [] => []
+    | x :: xs =>
+      let acting := st.p.acting x
+      let st' := st.step v kind x
+      let created := (st'.p.msgs.drop st.p.msgs.length).zipIdx.map
+        fun (m, j) => msgLine (st.p.msgs.length + j) m
+      let head := match acting with | some a => s!"t {i} {a}" | none => s!"t {i} -"
+      let keys := match acting with
+        | some a =>
+          ((st'.p.keysOf a).mergeSort (fun x y => x.1 ≤ y.1)).map fun kn =>
+            keyLine kind n a kn.1 kn.2 ((sysAt st'.sys kn.1).rep a)
+        | none => []
+      head :: created ++ keys ++ go st' (i + 1) xs
+  go (SSt.init n (parsePeers n body)) 0 steps
+
+def parseMsgObs (ts : List String) : Option MsgObs :=
+  match ts with
+  | "m" :: id :: _ :: src :: dst :: keys => some ⟨natD id, natD src, natD dst, nats keys⟩
+  | _ => none
+
+def parseKObs (ts : List String) : Option (Nat × KObs) :=
+  match ts with
+  | "obs" :: _ :: key :: "v" :: v :: _ => some (natD key, { value := intD v })
+  | ["obs", _, key, "lww", "none"] => some (natD key, {})
+  | ["obs", _, key, "lww", p, l, nd, w] =>
+    some (natD key, { lww := some (⟨natD p, natD l, natD nd⟩, natD w) })
+  | "obs" :: _ :: key :: "E" :: es => some (natD key, { elems := nats es })
+  | _ => none
+
+/-- group the body: a step line opens a record, `m` / `obs` lines belong to the last step -/
+def groupSteps (body : List String) : List StepObs :=
+  let rec go (acc : List StepObs) : List String → List StepObs
+    | [] => acc.reverse
+    | l :: rest =>
+      let ts := toks l
+      match parseStep ts with
+      | some st => go ({ step := st } :: acc) rest
+      | none =>
+        match acc with
+        | [] => go acc rest
+        | so :: more =>
+          match parseMsgObs ts, parseKObs ts with
+          | some mo, _ => go ({ so with created := so.created ++ [mo] } :: more) rest
+          | none, some ko => go ({ so with obs := so.obs ++ [ko] } :: more) rest
+          | none, none => go acc rest
+  go [] body
+
+def judgeStoreBlock (kind : Kind) (n nkeys : Nat) (body : List String) : List String :=
+  match judgeStore kind n nkeys (groupSteps body) with
+  | none => ["ok"]
+  | some sig => [s!"viol {sig}"]
+
 def handle (hdr : List String) (body : List String) : List String :=
   match hdr with
   | ["clocks", n] => runClocks (natD n) body
   | ["judge-clocks", n] => judgeClocksBlock (natD n) body
   | ["crdt", n] => runCrdt (natD n) body
   | ["judge-crdt"] => judgeCrdtBlock body
+  | ["store", v, kind, n] =>
+    runStore (if v == "current" then .current else .repaired) (parseKind kind) (natD n) body
+  | ["judge-store", kind, n, nkeys] => judgeStoreBlock (parseKind kind) (natD n) (natD nkeys) body
   | _ => ["bad-mode"]
 
 end HappyModel.C18.Driver
